@@ -18,6 +18,16 @@ import (
 	"time"
 )
 
+// OutDir is where evidence/ and replays/ are written (default: verif dir).
+var OutDir string
+
+func outDir(verifDir string) string {
+	if OutDir != "" {
+		return OutDir
+	}
+	return verifDir
+}
+
 // Fail describes one violated case.
 type Fail struct {
 	Msg string
@@ -433,7 +443,7 @@ func (c *Ctx) Finish(verifDir string) {
 		perSub[v.Sub]++
 		h := sha256.Sum256(append([]byte(v.Sub), v.Case...))
 		name := fmt.Sprintf("%s-%s.json", c.Prop, hex.EncodeToString(h[:6]))
-		path := filepath.Join(verifDir, "replays", name)
+		path := filepath.Join(outDir(verifDir), "replays", name)
 		os.MkdirAll(filepath.Dir(path), 0o755)
 		b, _ := json.MarshalIndent(map[string]any{"property": c.Prop, "sub": v.Sub, "case": v.Case, "msg": v.Msg,
 			"key": caseKey(v.Sub, v.Case)}, "", " ")
@@ -514,7 +524,7 @@ func (c *Ctx) writeEvidence(verifDir string, nviol, nknown int) {
 	if err != nil {
 		InternalError("evidence encode: %v", err)
 	}
-	dir := filepath.Join(verifDir, "evidence")
+	dir := filepath.Join(outDir(verifDir), "evidence")
 	os.MkdirAll(dir, 0o755)
 	tmp := filepath.Join(dir, fmt.Sprintf(".%s.%d.tmp", c.Prop, os.Getpid()))
 	if err := os.WriteFile(tmp, b, 0o644); err != nil {
